@@ -9,6 +9,7 @@ import Mathlib.Tactic.Ring
 import Mathlib.Tactic.FieldSimp
 import Strengths.Model.Coarsegrain
 import Strengths.Proofs.Units
+import Strengths.Proofs.Trajectory
 
 namespace Strengths
 open Gen
@@ -326,5 +327,659 @@ theorem cg_edges_ok {g : GridShape} {h : Rat} {uv ug : Sys} {envs : List Int} {i
   have := hinv.1 o ho
   simp only [edgeKey, Prod.mk.injEq] at hkey
   omega
+
+
+/-! ## aggregation of states and chemostat flags -/
+
+theorem slotSum_nil (k : Nat) : slotSum k [] = 0 := by simp [slotSum]
+
+theorem slotSum_cons (k : Nat) (p : Int × Rat) (r : List (Int × Rat)) :
+    slotSum k (p :: r) = (if cgKeep p.1 && p.1.toNat == k then p.2 else 0) + slotSum k r := by
+  unfold slotSum
+  by_cases h : (cgKeep p.1 && p.1.toNat == k) = true
+  · simp [List.filter_cons, h]
+  · simp [List.filter_cons, h]
+
+theorem slotSum_append (k : Nat) (a b : List (Int × Rat)) : slotSum k (a ++ b) = slotSum k a + slotSum k b := by
+  induction a with
+  | nil => simp [slotSum_nil]
+  | cons p r ih => simp [slotSum_cons, ih]; ring
+
+theorem slotSum_flatMap {α} (k : Nat) (l : List α) (f : α → List (Int × Rat)) :
+    slotSum k (l.flatMap f) = (l.map fun x => slotSum k (f x)).sum := by
+  induction l with
+  | nil => simp [slotSum_nil]
+  | cons a r ih => simp [List.flatMap_cons, slotSum_append, ih]
+
+theorem slotSum_map {α} (k : Nat) (l : List α) (f : α → Int × Rat) :
+    slotSum k (l.map f) = (l.map fun x => if cgKeep (f x).1 && (f x).1.toNat == k then (f x).2 else 0).sum := by
+  induction l with
+  | nil => simp [slotSum_nil]
+  | cons a r ih => simp [slotSum_cons, ih]
+
+theorem sum_range_ite_eq (n s : Nat) (hs : s < n) (f : Nat → Rat) :
+    ((List.range n).map fun s' => if s' = s then f s' else 0).sum = f s := by
+  induction n with
+  | zero => omega
+  | succ n ih =>
+    rw [List.range_succ, List.map_append, List.sum_append]
+    by_cases h : s = n
+    · subst h
+      have : ((List.range s).map fun s' => if s' = s then f s' else 0) = (List.range s).map fun _ => (0 : Rat) := by
+        apply List.map_congr_left
+        intro a ha
+        have := List.mem_range.1 ha
+        rw [if_neg (by omega)]
+      rw [this]
+      simp
+    · rw [ih (by omega)]
+      simp
+      intro h'; omega
+
+theorem sum_range_ite_none (n : Nat) (p : Nat → Prop) [DecidablePred p] (f : Nat → Rat) (h : ∀ s', s' < n → ¬ p s') :
+    ((List.range n).map fun s' => if p s' then f s' else 0).sum = 0 := by
+  have : ((List.range n).map fun s' => if p s' then f s' else 0) = (List.range n).map fun _ => (0 : Rat) := by
+    apply List.map_congr_left
+    intro a ha
+    rw [if_neg (h a (List.mem_range.1 ha))]
+  rw [this]; simp
+
+/-- `a·m + b` with `b < m` determines `a` and `b` -/
+theorem mul_add_inj {a b c d m : Nat} (hb : b < m) (hd : d < m) (h : a * m + b = c * m + d) : a = c ∧ b = d := by
+  have h1 : (a * m + b) / m = a := by
+    rw [Nat.add_comm, Nat.add_mul_div_right _ _ (by omega), Nat.div_eq_of_lt hb]; simp
+  have h2 : (c * m + d) / m = c := by
+    rw [Nat.add_comm, Nat.add_mul_div_right _ _ (by omega), Nat.div_eq_of_lt hd]; simp
+  have hac : a = c := by rw [← h1, ← h2, h]
+  subst hac
+  exact ⟨rfl, by omega⟩
+
+/-- every entry of the index map is `-1` or a group index below `ncg` -/
+def InRange (ncg : Nat) (ims : List Int) : Prop := ∀ gI ∈ ims, gI = -1 ∨ (0 ≤ gI ∧ gI < ncg)
+
+theorem inner_slot (ns n ncg : Nat) (src : List Rat) (gI : Int) (i s g : Nat) (hs : s < ns) (hg : g < ncg)
+    (hr : gI = -1 ∨ (0 ≤ gI ∧ gI < ncg)) :
+    slotSum (s * ncg + g) ((List.range ns).map fun (s' : Nat) =>
+        ((if cgKeep gI then cgStateDst ncg s' gI else -1), src.getD (cgStateSrc n s' i).toNat 0))
+      = if gI = (g : Int) then src.getD (s * n + i) 0 else 0 := by
+  rw [slotSum_map]
+  rcases hr with hm | ⟨h0, hlt⟩
+  · subst hm
+    have hk : cgKeep (-1) = false := by decide
+    rw [if_neg (by omega)]
+    apply sum_range_ite_none _ (fun s' => (cgKeep (if cgKeep (-1) = true then cgStateDst (↑ncg) (↑s') (-1) else -1) &&
+      (if cgKeep (-1) = true then cgStateDst (↑ncg) (↑s') (-1) else -1).toNat == s * ncg + g) = true)
+    intro s' _
+    simp [hk]
+  · have hk : cgKeep gI = true := by simp [cgKeep]; omega
+    obtain ⟨gn, rfl⟩ := Int.eq_ofNat_of_zero_le h0
+    have hgn : gn < ncg := by exact_mod_cast hlt
+    have hd : ∀ s' : Nat, cgStateDst (ncg : Int) (s' : Int) (gn : Int) = ((s' * ncg + gn : Nat) : Int) := by
+      intro s'; simp [cgStateDst]
+    have hkd : ∀ s' : Nat, cgKeep (((s' * ncg + gn : Nat)) : Int) = true := by
+      intro s'
+      have h := Int.natCast_nonneg (s' * ncg + gn)
+      simp only [cgKeep, bne_iff_ne, ne_eq]
+      omega
+    simp only [hk, if_true, hd, hkd, Bool.true_and, Int.toNat_natCast, beq_iff_eq]
+    by_cases hgg : gn = g
+    · subst hgg
+      rw [if_pos rfl]
+      have : ∀ s' : Nat, (s' * ncg + gn = s * ncg + gn) ↔ s' = s := by
+        intro s'
+        constructor
+        · intro h; exact (mul_add_inj hgn hgn h).1
+        · intro h; rw [h]
+      simp only [this]
+      rw [sum_range_ite_eq ns s hs]
+      simp [cgStateSrc]
+      congr 1
+    · rw [if_neg (by exact_mod_cast hgg)]
+      apply sum_range_ite_none
+      intro s' _ h
+      exact hgg (mul_add_inj hgn hg h).2
+
+theorem aggregate_get (ns n ncg : Nat) (ims : List Int) (src : List Rat) (s g : Nat) (hs : s < ns) (hg : g < ncg)
+    (hr : InRange ncg ims) :
+    (aggregate ns n ncg ims src)[s * ncg + g]? =
+      some ((ims.zipIdx.map fun p => if p.1 = (g : Int) then src.getD (s * n + p.2) 0 else 0).sum) := by
+  unfold aggregate
+  have hk : s * ncg + g < ncg * ns := by
+    have := mul_add_lt hs hg
+    rw [Nat.mul_comm ncg ns]; exact this
+  rw [scatterAdd_get _ _ _ hk, slotSum_flatMap]
+  congr 2
+  apply List.map_congr_left
+  intro p hp
+  obtain ⟨gI, i⟩ := p
+  have hmem : gI ∈ ims := List.fst_mem_of_mem_zipIdx hp
+  exact inner_slot ns n ncg src gI i s g hs hg (hr gI hmem)
+
+theorem sum_map_sum_comm {α β} (l1 : List α) (l2 : List β) (f : α → β → Rat) :
+    (l1.map fun a => (l2.map fun b => f a b).sum).sum = (l2.map fun b => (l1.map fun a => f a b).sum).sum := by
+  induction l1 with
+  | nil => simp
+  | cons a r ih =>
+    simp only [List.map_cons, List.sum_cons, ih]
+    rw [← List.sum_map_add]
+
+theorem sum_range_ite_cast (ncg : Nat) (x : Int) (v : Rat) :
+    ((List.range ncg).map fun (g : Nat) => if x = (g : Int) then v else 0).sum = if 0 ≤ x ∧ x < ncg then v else 0 := by
+  by_cases h : 0 ≤ x ∧ x < ncg
+  · obtain ⟨gn, rfl⟩ := Int.eq_ofNat_of_zero_le h.1
+    have hgn : gn < ncg := by exact_mod_cast h.2
+    rw [if_pos h]
+    have : (fun (g : Nat) => if (gn : Int) = (g : Int) then v else 0) = fun g => if g = gn then (fun _ => v) g else 0 := by
+      funext g
+      by_cases hg : g = gn
+      · simp [hg]
+      · have : ¬ ((gn : Int) = (g : Int)) := by
+          intro h
+          exact hg (by exact_mod_cast h.symm)
+        simp [hg, this]
+    rw [this, sum_range_ite_eq ncg gn hgn]
+  · rw [if_neg h]
+    apply sum_range_ite_none
+    intro g hg hx
+    apply h
+    subst hx
+    exact ⟨Int.natCast_nonneg g, by exact_mod_cast hg⟩
+
+/-- per species: the coarse amounts add up to the fine amounts of the retained cells -/
+theorem aggregate_species_total (ns n ncg : Nat) (ims : List Int) (src : List Rat) (s : Nat) (hs : s < ns)
+    (hr : InRange ncg ims) :
+    ((List.range ncg).map fun g => (aggregate ns n ncg ims src).getD (s * ncg + g) 0).sum =
+      (ims.zipIdx.map fun p => if cgKeep p.1 then src.getD (s * n + p.2) 0 else 0).sum := by
+  have h1 : ((List.range ncg).map fun g => (aggregate ns n ncg ims src).getD (s * ncg + g) 0) =
+      (List.range ncg).map fun (g : Nat) => (ims.zipIdx.map fun p => if p.1 = (g : Int) then src.getD (s * n + p.2) 0 else 0).sum := by
+    apply List.map_congr_left
+    intro g hg
+    rw [List.getD_eq_getElem?_getD, aggregate_get ns n ncg ims src s g hs (List.mem_range.1 hg) hr]
+    rfl
+  rw [h1, sum_map_sum_comm]
+  congr 1
+  apply List.map_congr_left
+  intro p hp
+  rw [sum_range_ite_cast]
+  have hmem : p.1 ∈ ims := List.fst_mem_of_mem_zipIdx hp
+  rcases hr p.1 hmem with hm | ⟨h0, hlt⟩
+  · have : cgKeep p.1 = false := by rw [hm]; decide
+    rw [this, if_neg (by omega)]
+    simp
+  · have : cgKeep p.1 = true := by simp [cgKeep]; omega
+    rw [this, if_pos ⟨h0, hlt⟩]
+    simp
+
+theorem sum_map_intCast (l : List Int) : (l.map fun (c : Int) => (c : Rat)).sum = ((l.sum : Int) : Rat) := by
+  induction l with
+  | nil => simp
+  | cons a r ih => simp [ih]
+
+theorem clampChem_intCast (m : Int) (h : 0 ≤ m) : clampChem (m : Rat) = if 1 ≤ m then 1 else 0 := by
+  unfold clampChem
+  rw [Rat.floor_intCast]
+  have hneg : ¬ ((m : Rat) < 0 ∧ ((m : Int) : Rat) ≠ (m : Rat)) := fun hc => hc.2 rfl
+  rw [if_neg hneg]
+  by_cases h1 : 1 ≤ m
+  · rw [if_pos h1]
+    by_cases h2 : (m : Rat) ≤ 1
+    · have : m ≤ 1 := by exact_mod_cast h2
+      rw [if_pos h2]; omega
+    · rw [if_neg h2]
+  · rw [if_neg h1]
+    have hm : m = 0 := by omega
+    subst hm
+    simp
+
+theorem sum_nonneg_ge_one (l : List Int) (h : ∀ c ∈ l, 0 ≤ c) : (0 ≤ l.sum) ∧ (1 ≤ l.sum ↔ ∃ c ∈ l, 1 ≤ c) := by
+  induction l with
+  | nil => simp
+  | cons a r ih =>
+    obtain ⟨h0, h1⟩ := ih (fun c hc => h c (by simp [hc]))
+    have ha := h a (by simp)
+    simp only [List.sum_cons, List.mem_cons, exists_eq_or_imp]
+    refine ⟨by omega, ?_⟩
+    constructor
+    · intro hs
+      by_cases h2 : 1 ≤ a
+      · exact Or.inl h2
+      · exact Or.inr (h1.1 (by omega))
+    · rintro (h2 | h2)
+      · omega
+      · have := h1.2 h2; omega
+
+theorem getD_map_intCast (l : List Int) (i : Nat) : (l.map fun (c : Int) => (c : Rat)).getD i 0 = ((l.getD i 0 : Int) : Rat) := by
+  simp only [List.getD_eq_getElem?_getD, List.getElem?_map]
+  cases l[i]? <;> simp
+
+/-- `int(min(Σ flags, 1))` over non-negative flags is "any member flagged" -/
+theorem clamp_sum_any {α} (l : List α) (f : α → Int) (h : ∀ a ∈ l, 0 ≤ f a) :
+    clampChem ((l.map fun a => ((f a : Int) : Rat)).sum) = if ∃ a ∈ l, 1 ≤ f a then 1 else 0 := by
+  have : (l.map fun a => ((f a : Int) : Rat)) = (l.map f).map fun (c : Int) => (c : Rat) := by simp
+  rw [this, sum_map_intCast]
+  have hn := sum_nonneg_ge_one (l.map f) (by
+    intro c hc
+    obtain ⟨a, ha, rfl⟩ := List.mem_map.1 hc
+    exact h a ha)
+  rw [clampChem_intCast _ hn.1]
+  by_cases hx : ∃ a ∈ l, 1 ≤ f a
+  · rw [if_pos hx, if_pos]
+    obtain ⟨a, ha, h1⟩ := hx
+    exact hn.2.2 ⟨f a, List.mem_map_of_mem ha, h1⟩
+  · rw [if_neg hx, if_neg]
+    intro hs
+    obtain ⟨c, hc, h1⟩ := hn.2.1 hs
+    obtain ⟨a, ha, rfl⟩ := List.mem_map.1 hc
+    exact hx ⟨a, ha, h1⟩
+
+
+/-! ## the coarse system -/
+
+theorem foldl_min_le (l : List Int) (a : Int) : l.foldl min a ≤ a ∧ ∀ x ∈ l, l.foldl min a ≤ x := by
+  induction l generalizing a with
+  | nil => simp
+  | cons b r ih =>
+    simp only [List.foldl_cons, List.mem_cons]
+    obtain ⟨h1, h2⟩ := ih (min a b)
+    refine ⟨le_trans h1 (min_le_left a b), ?_⟩
+    intro x hx
+    rcases hx with rfl | hx
+    · exact le_trans h1 (min_le_right a x)
+    · exact h2 x hx
+
+theorem listMin_le {l : List Int} {m : Int} (h : listMin l = some m) : ∀ x ∈ l, m ≤ x := by
+  cases l with
+  | nil => simp [listMin] at h
+  | cons a r =>
+    simp only [listMin, Option.some.injEq] at h
+    subst h
+    intro x hx
+    rcases List.mem_cons.1 hx with rfl | hx
+    · exact (foldl_min_le r x).1
+    · exact (foldl_min_le r a).2 x hx
+
+/-- number of coarse nodes of an accepted map -/
+def nGroups (im : List (Option Int)) : Nat := ((listMax (im.filterMap id)).getD 0 + 1).toNat
+
+theorem check_inRange {im : List (Option Int)} {envs : List Int} (h : checkIndexMap im envs = .ok ()) :
+    InRange (nGroups im) (im.filterMap id) := by
+  obtain ⟨_, _, mx, mn, hmx, hmn, hmin, hmax, _, _⟩ := (checkIndexMap_ok_iff im envs).1 h
+  intro x hx
+  have h1 := listMax_ge hmx x hx
+  have h2 := listMin_le hmn x hx
+  simp only [nGroups, hmx, Option.getD_some]
+  by_cases hm : x = -1
+  · exact Or.inl hm
+  · right
+    refine ⟨by omega, ?_⟩
+    rw [Int.toNat_of_nonneg (by omega)]
+    omega
+
+theorem scatterAdd_length (n : Nat) (pairs : List (Int × Rat)) : (scatterAdd n pairs).length = n := by
+  rw [scatterAdd_eq, foldl_scatter_length]; simp
+
+theorem coarsegrainGrid_nodes {g : GridShape} {h : Rat} {uv ug : Sys} {envs : List Int} {im : List (Option Int)} {sp : CgSpace}
+    (hok : coarsegrainGrid g h uv ug envs im = .ok sp) : sp.vols.length = nGroups im := by
+  rw [(coarsegrainGrid_ok hok).2.2.1, scatterAdd_length]; rfl
+
+/-- what an accepted `coarsegrainSystem` call computed -/
+theorem coarsegrainSystem_ok {g : GridShape} {h : Rat} {uv ug : Sys} {envs : List Int} {ns : Nat} {state : List Rat} {chem : List Int}
+    {im : List (Option Int)} {c : CgSystem} (hok : coarsegrainSystem g h uv ug envs ns state chem im = .ok c) :
+    coarsegrainGrid g h uv ug envs im = .ok c.space ∧
+    c.state = aggregate ns g.size (nGroups im) (im.filterMap id) state ∧
+    c.chem = (aggregate ns g.size (nGroups im) (im.filterMap id) (chem.map fun (x : Int) => (x : Rat))).map clampChem := by
+  unfold coarsegrainSystem at hok
+  split at hok
+  · cases hok
+  · rename_i sp hsp
+    cases hok
+    have := coarsegrainGrid_nodes hsp
+    exact ⟨hsp, by simp only [this], by simp only [this]⟩
+
+theorem cg_group_amount_aux {g : GridShape} {h : Rat} {uv ug : Sys} {envs : List Int} {ns : Nat} {state : List Rat} {chem : List Int}
+    {im : List (Option Int)} {c : CgSystem} (hok : coarsegrainSystem g h uv ug envs ns state chem im = .ok c)
+    (s k : Nat) (hs : s < ns) (hk : k < nGroups im) :
+    c.state[s * nGroups im + k]? =
+      some (((im.filterMap id).zipIdx.map fun p => if p.1 = (k : Int) then state.getD (s * g.size + p.2) 0 else 0).sum) := by
+  obtain ⟨hsp, hst, _⟩ := coarsegrainSystem_ok hok
+  have hchk := (coarsegrainGrid_ok hsp).2.1
+  rw [hst, aggregate_get ns g.size (nGroups im) _ state s k hs hk (check_inRange hchk)]
+
+theorem cg_species_total_aux {g : GridShape} {h : Rat} {uv ug : Sys} {envs : List Int} {ns : Nat} {state : List Rat} {chem : List Int}
+    {im : List (Option Int)} {c : CgSystem} (hok : coarsegrainSystem g h uv ug envs ns state chem im = .ok c)
+    (s : Nat) (hs : s < ns) :
+    ((List.range (nGroups im)).map fun k => c.state.getD (s * nGroups im + k) 0).sum =
+      ((im.filterMap id).zipIdx.map fun p => if cgKeep p.1 then state.getD (s * g.size + p.2) 0 else 0).sum := by
+  obtain ⟨hsp, hst, _⟩ := coarsegrainSystem_ok hok
+  have hchk := (coarsegrainGrid_ok hsp).2.1
+  rw [hst]
+  exact aggregate_species_total ns g.size (nGroups im) _ state s hs (check_inRange hchk)
+
+theorem cg_chem_any_aux {g : GridShape} {h : Rat} {uv ug : Sys} {envs : List Int} {ns : Nat} {state : List Rat} {chem : List Int}
+    {im : List (Option Int)} {c : CgSystem} (hok : coarsegrainSystem g h uv ug envs ns state chem im = .ok c)
+    (hflags : ∀ x ∈ chem, 0 ≤ x) (s k : Nat) (hs : s < ns) (hk : k < nGroups im) :
+    c.chem[s * nGroups im + k]? =
+      some (if ∃ p ∈ (im.filterMap id).zipIdx, p.1 = (k : Int) ∧ 1 ≤ chem.getD (s * g.size + p.2) 0 then 1 else 0) := by
+  obtain ⟨hsp, _, hch⟩ := coarsegrainSystem_ok hok
+  have hchk := (coarsegrainGrid_ok hsp).2.1
+  rw [hch, List.getElem?_map, aggregate_get ns g.size (nGroups im) _ _ s k hs hk (check_inRange hchk)]
+  simp only [Option.map_some, Option.some.injEq]
+  have hconv : ((im.filterMap id).zipIdx.map fun p => if p.1 = (k : Int) then
+        (chem.map fun (x : Int) => (x : Rat)).getD (s * g.size + p.2) 0 else 0) =
+      ((im.filterMap id).zipIdx.map fun p => (((if p.1 = (k : Int) then chem.getD (s * g.size + p.2) 0 else 0 : Int)) : Rat)) := by
+    apply List.map_congr_left
+    intro p _
+    rw [getD_map_intCast]
+    split <;> simp
+  rw [hconv, clamp_sum_any]
+  · congr 1
+    apply propext
+    constructor
+    · rintro ⟨p, hp, h1⟩
+      by_cases hpk : p.1 = (k : Int)
+      · rw [if_pos hpk] at h1; exact ⟨p, hp, hpk, h1⟩
+      · rw [if_neg hpk] at h1; omega
+    · rintro ⟨p, hp, hpk, h1⟩
+      exact ⟨p, hp, by rw [if_pos hpk]; exact h1⟩
+  · intro p _
+    split
+    · simp only [List.getD_eq_getElem?_getD]
+      cases hget : chem[s * g.size + p.2]? with
+      | none => simp
+      | some v => simp; exact hflags v (List.mem_of_getElem? hget)
+    · exact le_refl 0
+
+
+/-! ## validity, environments -/
+
+/-- the environment rule: two retained cells of one group have the same environment -/
+def NoMix (pairs : List (Int × Int)) : Prop :=
+  pairs.Pairwise fun p q => p.1 = q.1 → p.1 ≠ -1 → p.2 = q.2
+
+/-- what the slots already filled demand from the remaining cells -/
+def SlotsAgree (out : List Int) (pairs : List (Int × Int)) : Prop :=
+  ∀ p ∈ pairs, p.1 ≠ -1 → out.getD p.1.toNat 0 ≠ -2 → out.getD p.1.toNat 0 = p.2
+
+theorem npNorm_ofNonneg (len : Nat) (g : Int) (h0 : 0 ≤ g) (h1 : g < len) : npNorm len g = .ok g.toNat := by
+  simp [npNorm, h0, h1]
+
+theorem envLoop_iff (pairs : List (Int × Int)) (out : List Int)
+    (hr : ∀ p ∈ pairs, p.1 ≠ -1 → 0 ≤ p.1 ∧ p.1 < out.length) (he : ∀ p ∈ pairs, p.2 ≠ -2) :
+    envLoop pairs out = .ok () ↔ SlotsAgree out pairs ∧ NoMix pairs := by
+  induction pairs generalizing out with
+  | nil => simp [envLoop, SlotsAgree, NoMix]
+  | cons p rest ih =>
+    obtain ⟨g, e⟩ := p
+    have hr' : ∀ out' : List Int, out'.length = out.length → ∀ q ∈ rest, q.1 ≠ -1 → 0 ≤ q.1 ∧ q.1 < out'.length := by
+      intro out' hl q hq hk; rw [hl]; exact hr q (by simp [hq]) hk
+    have he' : ∀ q ∈ rest, q.2 ≠ -2 := fun q hq => he q (by simp [hq])
+    have hne : e ≠ -2 := he (g, e) (by simp)
+    simp only [envLoop]
+    by_cases hg : g = -1
+    · -- dropped cell
+      have hskip : envSkip g = true := by simp [envSkip, hg]
+      rw [if_pos hskip, ih out (hr' out rfl) he']
+      simp only [SlotsAgree, NoMix, List.mem_cons, List.pairwise_cons, forall_eq_or_imp]
+      constructor
+      · rintro ⟨h1, h2⟩
+        exact ⟨⟨fun h => absurd hg h, h1⟩, fun q _ _ h => absurd hg h, h2⟩
+      · rintro ⟨⟨_, h1⟩, _, h2⟩
+        exact ⟨h1, h2⟩
+    · have hskip : envSkip g = false := by simp [envSkip, hg]
+      obtain ⟨h0, hlt⟩ := hr (g, e) (by simp) hg
+      rw [hskip, npNorm_ofNonneg _ g h0 hlt]
+      simp only [Bool.false_eq_true, if_false]
+      have hk : g.toNat < out.length := by omega
+      -- slots of other groups are untouched by `set`
+      have hset : ∀ q : Int × Int, q.1 ≠ -1 → 0 ≤ q.1 → q.1 ≠ g → (out.set g.toNat e).getD q.1.toNat 0 = out.getD q.1.toNat 0 := by
+        intro q _ hq0 hqg
+        have : g.toNat ≠ q.1.toNat := by omega
+        simp [List.getD_eq_getElem?_getD, List.getElem?_set, this]
+      have hsetg : (out.set g.toNat e).getD g.toNat 0 = e := by
+        simp [List.getD_eq_getElem?_getD, List.getElem?_set, hk]
+      by_cases hcur : out.getD g.toNat 0 = -2
+      · have hun : envUnset (out.getD g.toNat 0) e = true := by rw [hcur]; rfl
+        rw [if_pos hun, ih (out.set g.toNat e) (hr' _ (by simp)) he']
+        simp only [SlotsAgree, NoMix, List.mem_cons, List.pairwise_cons, forall_eq_or_imp]
+        constructor
+        · rintro ⟨h1, h2⟩
+          refine ⟨⟨fun _ h => absurd hcur h, ?_⟩, ?_, h2⟩
+          · intro q hq hqk hq2
+            have hq0 := (hr q (by simp [hq]) hqk).1
+            by_cases hqg : q.1 = g
+            · rw [hqg] at hq2; exact absurd hcur hq2
+            · have := h1 q hq hqk
+              rw [hset q hqk hq0 hqg] at this
+              exact this hq2
+          · intro q hq hgq _
+            have hqk : q.1 ≠ -1 := by rw [← hgq]; exact hg
+            have := h1 q hq hqk
+            rw [← hgq, hsetg] at this
+            exact this hne
+        · rintro ⟨⟨_, h1⟩, h3, h2⟩
+          refine ⟨?_, h2⟩
+          intro q hq hqk hq2
+          have hq0 := (hr q (by simp [hq]) hqk).1
+          by_cases hqg : q.1 = g
+          · rw [hqg, hsetg]
+            exact h3 q hq hqg.symm hg
+          · rw [hset q hqk hq0 hqg] at hq2 ⊢
+            exact h1 q hq hqk hq2
+      · have hun : envUnset (out.getD g.toNat 0) e = false := by
+          simp only [envUnset, beq_eq_false_iff_ne, ne_eq]; exact hcur
+        rw [hun]
+        simp only [Bool.false_eq_true, if_false]
+        by_cases hsame : out.getD g.toNat 0 = e
+        · have hs : envSame (out.getD g.toNat 0) e = true := by simp only [envSame, beq_iff_eq]; exact hsame
+          rw [if_pos hs, ih out (hr' out rfl) he']
+          simp only [SlotsAgree, NoMix, List.mem_cons, List.pairwise_cons, forall_eq_or_imp]
+          constructor
+          · rintro ⟨h1, h2⟩
+            refine ⟨⟨fun _ _ => hsame, h1⟩, ?_, h2⟩
+            intro q hq hgq _
+            have hqk : q.1 ≠ -1 := by rw [← hgq]; exact hg
+            have := h1 q hq hqk
+            rw [← hgq] at this
+            rw [← hsame]
+            exact this hcur
+          · rintro ⟨⟨_, h1⟩, _, h2⟩
+            exact ⟨h1, h2⟩
+        · have hs : envSame (out.getD g.toNat 0) e = false := by
+            simp only [envSame, beq_eq_false_iff_ne, ne_eq]; exact hsame
+          rw [hs]
+          simp only [Bool.false_eq_true, if_false, SlotsAgree, NoMix, List.mem_cons, List.pairwise_cons, forall_eq_or_imp]
+          constructor
+          · intro h; cases h
+          · rintro ⟨⟨h1, _⟩, _⟩
+            exact absurd (h1 hg hcur) hsame
+
+theorem foldl_max_mem (l : List Int) (a : Int) : l.foldl max a = a ∨ l.foldl max a ∈ l := by
+  induction l generalizing a with
+  | nil => simp
+  | cons b r ih =>
+    simp only [List.foldl_cons, List.mem_cons]
+    rcases ih (max a b) with h | h
+    · rcases max_choice a b with h2 | h2
+      · left; rw [h, h2]
+      · right; left; rw [h, h2]
+    · right; right; exact h
+
+theorem foldl_min_mem (l : List Int) (a : Int) : l.foldl min a = a ∨ l.foldl min a ∈ l := by
+  induction l generalizing a with
+  | nil => simp
+  | cons b r ih =>
+    simp only [List.foldl_cons, List.mem_cons]
+    rcases ih (min a b) with h | h
+    · rcases min_choice a b with h2 | h2
+      · left; rw [h, h2]
+      · right; left; rw [h, h2]
+    · right; right; exact h
+
+theorem listMax_mem {l : List Int} {m : Int} (h : listMax l = some m) : m ∈ l := by
+  cases l with
+  | nil => simp [listMax] at h
+  | cons a r =>
+    simp only [listMax, Option.some.injEq] at h
+    subst h
+    rcases foldl_max_mem r a with h | h
+    · rw [h]; simp
+    · simp [h]
+
+theorem listMin_mem {l : List Int} {m : Int} (h : listMin l = some m) : m ∈ l := by
+  cases l with
+  | nil => simp [listMin] at h
+  | cons a r =>
+    simp only [listMin, Option.some.injEq] at h
+    subst h
+    rcases foldl_min_mem r a with h | h
+    · rw [h]; simp
+    · simp [h]
+
+theorem listMax_isSome {l : List Int} (h : l ≠ []) : ∃ m, listMax l = some m := by
+  cases l with
+  | nil => exact absurd rfl h
+  | cons a r => exact ⟨_, rfl⟩
+
+theorem listMin_isSome {l : List Int} (h : l ≠ []) : ∃ m, listMin l = some m := by
+  cases l with
+  | nil => exact absurd rfl h
+  | cons a r => exact ⟨_, rfl⟩
+
+/-- the documented rules for an index map -/
+structure ValidMap (im : List (Option Int)) (envs : List Int) : Prop where
+  length : im.length = envs.length
+  ints : ∀ x ∈ im, x.isSome = true
+  ge : ∀ x ∈ im.filterMap id, -1 ≤ x
+  nonempty : ∃ x ∈ im.filterMap id, 0 ≤ x
+  present : ∀ k : Nat, (∃ x ∈ im.filterMap id, (k : Int) < x) → (k : Int) ∈ im.filterMap id
+  nomix : NoMix ((im.filterMap id).zip envs)
+
+theorem valid_iff_aux (im : List (Option Int)) (envs : List Int) (henv : ∀ e ∈ envs, e ≠ -2) :
+    checkIndexMap im envs = .ok () ↔ ValidMap im envs := by
+  rw [checkIndexMap_ok_iff]
+  have hloop : ∀ mx mn : Int, (∀ x ∈ im.filterMap id, x ≤ mx) → (∀ x ∈ im.filterMap id, mn ≤ x) → -1 ≤ mn → mn ≤ 0 →
+      (envLoop ((im.filterMap id).zip envs) (List.replicate (mx + 1 - mn).toNat envSentinel) = .ok () ↔
+        NoMix ((im.filterMap id).zip envs)) := by
+    intro mx mn hmax hmin hmn hmn0
+    rw [envLoop_iff]
+    · constructor
+      · exact fun h => h.2
+      · intro h
+        refine ⟨?_, h⟩
+        intro p hp hk hne
+        exfalso
+        apply hne
+        have hx := hmax p.1 (List.of_mem_zip hp).1
+        have hy := hmin p.1 (List.of_mem_zip hp).1
+        have h1 : ((mx + 1 - mn).toNat : Int) = mx + 1 - mn := Int.toNat_of_nonneg (by omega)
+        have h2 : (p.1.toNat : Int) = p.1 := Int.toNat_of_nonneg (by omega)
+        have hlt : p.1.toNat < (mx + 1 - mn).toNat := by
+          have : (p.1.toNat : Int) < ((mx + 1 - mn).toNat : Int) := by rw [h1, h2]; omega
+          exact_mod_cast this
+        simp [List.getD_eq_getElem?_getD, List.getElem?_replicate, hlt, envSentinel]
+    · intro p hp hk
+      have hx := hmax p.1 (List.of_mem_zip hp).1
+      have hy := hmin p.1 (List.of_mem_zip hp).1
+      simp only [List.length_replicate]
+      have h1 : ((mx + 1 - mn).toNat : Int) = mx + 1 - mn := Int.toNat_of_nonneg (by omega)
+      rw [h1]
+      omega
+    · intro p hp
+      exact henv p.2 (List.of_mem_zip hp).2
+  constructor
+  · rintro ⟨hlen, hty, mx, mn, hmx, hmn, hmin, hmax, hpres, hl⟩
+    have hM := listMax_ge hmx
+    have hm := listMin_le hmn
+    have hmn0 : mn ≤ 0 := by
+      by_cases h0 : 0 < mx
+      · exact hm 0 (hpres 0 (by exact_mod_cast h0))
+      · have : mx = 0 := by omega
+        rw [← this]; exact hm mx (listMax_mem hmx)
+    refine ⟨hlen, hty, fun x hx => le_trans hmin (hm x hx), ⟨mx, listMax_mem hmx, hmax⟩, ?_, (hloop mx mn hM hm hmin hmn0).1 hl⟩
+    rintro k ⟨x, hx, hkx⟩
+    exact hpres k (lt_of_lt_of_le hkx (hM x hx))
+  · rintro ⟨hlen, hty, hge, ⟨x0, hx0, hx0nn⟩, hpres, hnm⟩
+    have hne : im.filterMap id ≠ [] := fun h => by rw [h] at hx0; simp at hx0
+    obtain ⟨mx, hmx⟩ := listMax_isSome hne
+    obtain ⟨mn, hmn⟩ := listMin_isSome hne
+    have hM := listMax_ge hmx
+    have hm := listMin_le hmn
+    have hmn1 : -1 ≤ mn := hge mn (listMin_mem hmn)
+    have hmx0 : 0 ≤ mx := le_trans hx0nn (hM x0 hx0)
+    have hmn0 : mn ≤ 0 := by
+      by_cases h0 : 0 < mx
+      · exact hm 0 (hpres 0 ⟨mx, listMax_mem hmx, by exact_mod_cast h0⟩)
+      · have : mx = 0 := by omega
+        rw [← this]; exact hm mx (listMax_mem hmx)
+    refine ⟨hlen, hty, mx, mn, hmx, hmn, hmn1, hmx0, ?_, (hloop mx mn hM hm hmn1 hmn0).2 hnm⟩
+    intro k hk
+    exact hpres k ⟨mx, listMax_mem hmx, hk⟩
+
+def setStep (acc : List Int) (p : Int × Int) : List Int := if cgKeep p.1 then acc.set p.1.toNat p.2 else acc
+
+theorem scatterSet_eq (n : Nat) (pairs : List (Int × Int)) :
+    scatterSet n pairs = pairs.foldl setStep (List.replicate n 0) := rfl
+
+theorem setStep_length (acc : List Int) (p : Int × Int) : (setStep acc p).length = acc.length := by
+  unfold setStep; split <;> simp
+
+theorem foldl_set_keeps (rest : List (Int × Int)) (acc : List Int) (k : Nat) (e : Int) (ha : acc[k]? = some e)
+    (hall : ∀ q ∈ rest, cgKeep q.1 = true → q.1.toNat = k → q.2 = e) :
+    (rest.foldl setStep acc)[k]? = some e := by
+  induction rest generalizing acc with
+  | nil => exact ha
+  | cons q r ih =>
+    simp only [List.foldl_cons]
+    apply ih
+    · unfold setStep
+      by_cases hk : cgKeep q.1 = true
+      · rw [if_pos hk]
+        by_cases hq : q.1.toNat = k
+        · have hlt : k < acc.length := by
+            by_contra hc
+            rw [List.getElem?_eq_none (by omega)] at ha; cases ha
+          rw [hq, List.getElem?_set_self hlt, hall q (by simp) hk hq]
+        · rw [List.getElem?_set_ne hq]; exact ha
+      · rw [if_neg hk]; exact ha
+    · intro q' hq'; exact hall q' (by simp [hq'])
+
+theorem foldl_set_member (pairs : List (Int × Int)) (acc : List Int)
+    (hr : ∀ p ∈ pairs, p.1 ≠ -1 → 0 ≤ p.1 ∧ p.1 < acc.length) (hnm : NoMix pairs) :
+    ∀ p ∈ pairs, p.1 ≠ -1 → (pairs.foldl setStep acc)[p.1.toNat]? = some p.2 := by
+  induction pairs generalizing acc with
+  | nil => intro p hp; simp at hp
+  | cons q r ih =>
+    intro p hp hpk
+    simp only [NoMix, List.pairwise_cons] at hnm
+    simp only [List.foldl_cons]
+    rcases List.mem_cons.1 hp with rfl | hp'
+    · obtain ⟨h0, hlt⟩ := hr p (by simp) hpk
+      have hk : cgKeep p.1 = true := by simp [cgKeep, hpk]
+      apply foldl_set_keeps
+      · unfold setStep
+        rw [if_pos hk, List.getElem?_set_self (by omega)]
+      · intro q' hq' hk' hq
+        have hq0 : q'.1 ≠ -1 := by simpa [cgKeep] using hk'
+        have := (hr q' (by simp [hq']) hq0).1
+        have heq : p.1 = q'.1 := by omega
+        exact (hnm.1 q' hq' heq hpk).symm
+    · apply ih (setStep acc q) _ hnm.2 p hp' hpk
+      intro p' hp'' hk'
+      rw [setStep_length]
+      exact hr p' (by simp [hp'']) hk'
+
+theorem cg_env_aux {g : GridShape} {h : Rat} {uv ug : Sys} {envs : List Int} {im : List (Option Int)} {sp : CgSpace}
+    (henv : ∀ e ∈ envs, e ≠ -2) (hok : coarsegrainGrid g h uv ug envs im = .ok sp) :
+    ∀ p ∈ (im.filterMap id).zip envs, p.1 ≠ -1 → sp.envs[p.1.toNat]? = some p.2 := by
+  obtain ⟨_, hchk, _, hen⟩ := coarsegrainGrid_ok hok
+  have hv := (valid_iff_aux im envs henv).1 hchk
+  have hin := check_inRange hchk
+  rw [hen, scatterSet_eq]
+  apply foldl_set_member _ _ _ hv.nomix
+  intro p hp hk
+  simp only [List.length_replicate]
+  rcases hin p.1 (List.of_mem_zip hp).1 with h1 | h1
+  · exact absurd h1 hk
+  · exact h1
 
 end Strengths
